@@ -169,37 +169,8 @@ def run(ctx):
         ok = "self._render_parts(" in txt and "self._name" in txt and "self._filename" in txt
         ctx.ob(R1, mm.qual, "Content-Disposition is built from _render_parts((name, filename))", ok, txt[:120], node=nnode)
 
-    # ---------------- R2
-    fm = m.func(f"{FL}.format_multipart_header_param")
-    tr = [c for c in astq.calls(fm.node) if isinstance(c.func, ast.Attribute) and c.func.attr == "translate"]
-    ctx.sites(R2, len(tr), 1, "translate call")
-    table = {}
-    for c in tr:
-        try:
-            table = fold.ev(c.args[0], fm.module)
-        except Exception as e:
-            raise AnalysisError(f"escape table does not fold: {e}")
-    for cp, esc in ((10, "%0A"), (13, "%0D"), (34, "%22")):
-        ok = isinstance(table, dict) and table.get(cp) == esc
-        ctx.ob(R2, fm.qual, f"code point {cp} -> {esc}", ok, f"table maps it to {table.get(cp)!r}" if isinstance(table, dict) else "no table")
-    extra_bad = [k for k, v in (table.items() if isinstance(table, dict) else []) if isinstance(v, str) and any(ch in v for ch in '"\r\n')]
-    ctx.ob(R2, fm.qual, "no replacement re-introduces a quote or line break", not extra_bad, str(extra_bad))
-    rets = [r for r in astq.walk_fn(fm.node) if isinstance(r, ast.Return)]
-    ok = False
-    for r in rets:
-        v = r.value
-        if isinstance(v, ast.JoinedStr):
-            lits = [x.value for x in v.values if isinstance(x, ast.Constant)]
-            fmts = [astq.text(x.value) for x in v.values if isinstance(x, ast.FormattedValue)]
-            ok = lits == ['="', '"'] and len(fmts) == 2 and fmts[0] == fm.params()[0]
-            if ok:
-                # the interpolated value is the translated one
-                srcs = astq.assigned_values(fm.node, fmts[1])
-                ok = any(isinstance(s, ast.Call) and isinstance(s.func, ast.Attribute) and s.func.attr == "translate" for s in srcs)
-                # and translate is the last redefinition (no assignment after it un-escapes)
-                last = max((getattr(x, "lineno", 0), astq.text(x)) for x in astq.walk_fn(fm.node) if isinstance(x, ast.Assign) and astq.text(x.targets[0]) == fmts[1])
-                ok = ok and ".translate(" in last[1]
-    ctx.ob(R2, fm.qual, 'result is name="<escaped value>"', ok, "; ".join(astq.text(r) for r in rets))
+    # ---------------- R2 (path-sensitive: the value reaches the result escaped on EVERY path)
+    _run_r2(ctx, R2)
 
     # ---------------- R3 / R4
     enc = m.func(f"{FP}.encode_multipart_formdata")
@@ -299,3 +270,194 @@ def run(ctx):
         ctx.ob(R5, reb.qual, "the Content-Type header of the outgoing request carries the encoder's content type", ok, astq.text(c), node=c)
     bst = [n for n in astq.walk_fn(reb.node) if isinstance(n, ast.Assign) and isinstance(n.targets[0], ast.Subscript) and isinstance(n.targets[0].slice, ast.Constant) and n.targets[0].slice.value == "body"]
     ctx.ob(R5, reb.qual, "the encoded body is what is sent", len(bst) == 1 and astq.text(bst[0].value) == body_n)
+
+
+# ---------------------------------------------------------------------------- R2
+FORBIDDEN = {10: "%0A", 13: "%0D", 34: "%22"}
+
+
+def _regex_guard(ctx, module, node):
+    """(pattern, flags, method) if `node` is a call that applies a regular expression to its last argument."""
+    from ..fold import Regex
+
+    m, fold = ctx.model, ctx.fold
+    f = node.func
+
+    def ev(e):
+        try:
+            return fold.ev(e, module)
+        except Exception:
+            return None
+
+    def compiled(e):
+        """Regex for an expression that is a compiled pattern: a folded constant or an inline <re>.compile(P[, F])."""
+        r = ev(e)
+        if isinstance(r, Regex):
+            return r
+        if isinstance(e, ast.Call) and isinstance(e.func, ast.Attribute) and e.func.attr == "compile" and e.args:
+            pat = ev(e.args[0])
+            flags = ev(e.args[1]) if len(e.args) > 1 else 0
+            if isinstance(pat, str) and isinstance(flags, int):
+                return Regex(pat, flags, e)
+        return None
+
+    if isinstance(f, ast.Attribute) and f.attr in ("match", "fullmatch", "search"):
+        r = compiled(f.value)
+        if r is not None and len(node.args) >= 1:
+            return (r.pattern, r.flags, f.attr)
+        # module-function style: <re>.match(P, s[, F])
+        if len(node.args) >= 2:
+            pat = ev(node.args[0])
+            flags = ev(node.args[2]) if len(node.args) > 2 else 0
+            if isinstance(pat, str) and isinstance(flags, int):
+                return (pat, flags, f.attr)
+    # ALIAS(s) where ALIAS = <compiled>.match at module level
+    if isinstance(f, ast.Name):
+        stmts = m.assigns.get(module, {}).get(f.id)
+        if stmts:
+            v = stmts[-1].value
+            if isinstance(v, ast.Attribute) and v.attr in ("match", "fullmatch", "search"):
+                r = compiled(v.value)
+                if r is not None:
+                    return (r.pattern, r.flags, v.attr)
+    return None
+
+
+def _run_r2(ctx, R2):
+    from .. import rx
+
+    m, fold = ctx.model, ctx.fold
+    fm = m.func(f"{FL}.format_multipart_header_param")
+    params = fm.params()
+    if len(params) < 2:
+        raise AnalysisError("format_multipart_header_param: (name, value) parameters not found")
+    pname, pvalue = params[0], params[1]
+    bad_chars = {chr(c) for c in FORBIDDEN}
+
+    class Esc(BaseRule):
+        wants_compose = True
+
+        def __init__(self):
+            self.guards = {}   # sym -> (safe, why, subject sym, text)
+            self.parts = {}    # sym -> [("lit", str) | ("val", AV)]
+            self.tables = []   # (node, table | None)
+            self.n = 0
+
+        def call(self, it, st, node, recv, pos, kw):
+            f = node.func
+            if isinstance(f, ast.Attribute) and recv is not None and "src:value" in recv.tags:
+                if f.attr == "translate" and node.args:
+                    try:
+                        table = fold.ev(node.args[0], fm.module)
+                    except Exception:
+                        table = None
+                    self.tables.append((node, table))
+                    full = isinstance(table, dict) and all(table.get(c) == e for c, e in FORBIDDEN.items()) and not any(
+                        isinstance(v, str) and (set(v) & bad_chars) for v in table.values())
+                    tags = (recv.tags - {"raw"}) | ({"escaped"} if full else {"raw"})
+                    return [Out("normal", st, AV("unk", sym=f"translate({recv.sym})", tags=frozenset(tags), none=False))]
+                if f.attr in ("decode", "encode", "strip", "lstrip", "rstrip", "lower", "upper", "replace", "format", "join", "removeprefix", "removesuffix", "expandtabs", "title", "casefold"):
+                    # conservative: any other str operation keeps (or may re-introduce) raw characters
+                    tags = (recv.tags - {"escaped"}) | {"raw"}
+                    return [Out("normal", st, AV("unk", sym=f"{f.attr}({recv.sym})", tags=frozenset(tags), none=False))]
+            g = _regex_guard(ctx, fm.module, node)
+            if g is not None and pos:
+                subj = pos[-1]
+                safe, why = rx.guard_excludes(g[0], g[1], g[2], bad_chars)
+                self.n += 1
+                sym = f"guard{self.n}:{ast.unparse(node)[:60]}"
+                self.guards[sym] = (safe, why, subj.sym, ast.unparse(node))
+                return [Out("normal", st, AV("unk", sym=sym))]
+            return None
+
+        def compose(self, it, st, node, children):
+            if isinstance(node, ast.JoinedStr):
+                parts = []
+                for ch, av in children:
+                    if isinstance(ch, ast.Constant):
+                        parts.append(("lit", ch.value))
+                    else:
+                        parts.append(("val", av))
+                self.n += 1
+                sym = f"fstr{self.n}"
+                self.parts[sym] = parts
+                return AV("unk", sym=sym, none=False, truth=True)
+            if isinstance(node, ast.BinOp) and isinstance(node.op, ast.Add) and len(children) == 2:
+                parts = []
+                for ch, av in children:
+                    if av.sym in self.parts:
+                        parts += self.parts[av.sym]
+                    elif av.kind == "const" and isinstance(av.val, str):
+                        parts.append(("lit", av.val))
+                    else:
+                        parts.append(("val", av))
+                self.n += 1
+                sym = f"concat{self.n}"
+                self.parts[sym] = parts
+                return AV("unk", sym=sym, none=False)
+            return None
+
+    rule = Esc()
+    outs, it = run_function(m, fm, rule, params={pname: AV("unk", sym="p:name", tags=frozenset({"src:name"})),
+                                                   pvalue: AV("unk", sym="p:value", tags=frozenset({"src:value", "raw"}))},
+                            record_decisions=True)
+    ctx.states += it.budget.steps
+    rets = [o for o in outs if o.kind == "return"]
+    ctx.sites(R2, len(rets), 1, "returning paths of format_multipart_header_param")
+    ctx.sites(R2, len(rule.tables), 1, "translate call on the value")
+    for node, table in rule.tables:
+        for cp, esc in FORBIDDEN.items():
+            ok = isinstance(table, dict) and table.get(cp) == esc
+            ctx.ob(R2, fm.qual, f"code point {cp} -> {esc}", ok, f"table maps it to {table.get(cp)!r}" if isinstance(table, dict) else "the escape table does not fold to a constant", node=node)
+        extra_bad = [k for k, v in (table.items() if isinstance(table, dict) else []) if isinstance(v, str) and (set(v) & bad_chars)]
+        ctx.ob(R2, fm.qual, "no replacement re-introduces a quote or line break", not extra_bad, str(extra_bad), node=node)
+    seen = set()
+    for o in rets:
+        st, av = o.st, o.val
+        decs = tuple((a, b) for a, b in st.ts.get("dec", ()))
+        parts = rule.parts.get(av.sym) if av is not None else None
+        label = "; ".join(f"{a}={b}" for a, b in decs) or "straight-line"
+        if parts is None:
+            raise AnalysisError(f"format_multipart_header_param returns a value that is not an f-string/concatenation the rule can read ({ast.unparse(fm.node.body[-1])[:60]})")
+        vals = [(i, x) for i, (k, x) in enumerate(parts) if k == "val" and "src:value" in x.tags]
+        shape = tuple(("lit", x) if k == "lit" else ("val", tuple(sorted(t for t in x.tags if not t.startswith("not:")))) for k, x in parts)
+        if (decs, shape) in seen:
+            continue
+        seen.add((decs, shape))
+        ok_shape = len(vals) == 1
+        quoted = False
+        if ok_shape:
+            i = vals[0][0]
+            quoted = i > 0 and parts[i - 1][0] == "lit" and parts[i - 1][1].endswith('="') and i + 1 < len(parts) and parts[i + 1][0] == "lit" and parts[i + 1][1] == '"' and i + 2 == len(parts)
+            name_ok = i == 2 and parts[0][0] == "val" and parts[0][1].sym == "p:name" and parts[1] == ("lit", '="')
+            quoted = quoted and name_ok
+        ctx.ob(R2, fm.qual, f"[{label}] result is <name>=\"<value>\"", ok_shape and quoted,
+               "" if ok_shape and quoted else "the value is not wrapped in exactly one pair of double quotes after `name=`", witness=st.witness(), node=fm.node)
+        if not ok_shape:
+            continue
+        v = vals[0][1]
+        if "escaped" in v.tags and "raw" not in v.tags:
+            ctx.ob(R2, fm.qual, f"[{label}] the value reaches the header escaped", True, node=fm.node)
+            continue
+        # unescaped on this path: only acceptable under a guard that proves there is nothing to escape
+        proven, unsafe, unknown = None, None, []
+        for gsym, (safe, why, subj, text) in rule.guards.items():
+            fact = st.facts.get(gsym)
+            if fact is None or (fact[0] is None and fact[1] is None):
+                continue
+            if (fact[0] is True or fact[1] is False) and subj == v.sym:
+                if safe:
+                    proven = (text, why)
+                else:
+                    unsafe = (text, why)
+        for a, b in decs:
+            if not (a.startswith("isinstance(") or any(g[3] in a for g in rule.guards.values())):
+                unknown.append(a)
+        if proven:
+            ctx.ob(R2, fm.qual, f"[{label}] unescaped only under a guard that excludes CR, LF and quote", True, f"{proven[0]}: {proven[1]}", node=fm.node)
+        elif unsafe or not unknown:
+            why = (f"the guard `{unsafe[0]}` does not prove it: {unsafe[1]}" if unsafe else "no escaping on this path")
+            ctx.ob(R2, fm.qual, f"[{label}] the value reaches the header unescaped", False,
+                   why + " - field content can terminate the parameter, add a header or open a part", witness=st.witness(), node=fm.node)
+        else:
+            raise AnalysisError(f"format_multipart_header_param: the value skips escaping under a condition the rule cannot interpret ({unknown})")
